@@ -15,7 +15,7 @@ func init() {
 		"		if err != nil {\n			fc.writers.RUnlock()\n			return 0, 0, nil, err\n		}",
 		"		if err != nil {\n			return 0, 0, nil, err\n		}", "C09.PAIR")
 	mut("C09", "insert prepares the persist after unlocking", idxgo,
-		"	persistPointers := idx.indexPersist.prepare(idx.persistHead)\n	idx.mu.Unlock()\n	return persistPointers()\n}\n\nfunc (idx *index) overlap",
+		"	defer idx.mu.Unlock()\n	return idx.indexPersist.prepare(idx.persistHead)()\n}\n\nfunc (idx *index) overlap",
 		"	idx.mu.Unlock()\n	persistPointers := idx.indexPersist.prepare(idx.persistHead)\n	return persistPointers()\n}\n\nfunc (idx *index) overlap", "C09.GUARD")
 	mut("C09", "close holds writers while taking readers", fcgo,
 		"	fc.writers.RUnlock()\n	fc.readers.RLock()\n	for _, f := range fc.readers.files {\n		f.Lock()",
@@ -100,8 +100,8 @@ func init() {
 		"	fc.release = make(chan struct{}, cfg.MaxDescriptors)\n	if f, ferr := cfg.FS.Open(indexFile, os.O_RDWR); ferr == nil {\n		_ = f.Close()\n	}\n", "C02.R2.order")
 
 	mut("C02", "update persists only from the updated position", idxgo,
-		"		persistPointers := idx.indexPersist.prepare(idx.persistHead)\n		idx.mu.Unlock()\n		return persistPointers()\n	}\n\n	idx.mu.Unlock()\n	return nil",
-		"		persistPointers := idx.indexPersist.prepare(updateAt)\n		idx.mu.Unlock()\n		return persistPointers()\n	}\n\n	idx.mu.Unlock()\n	return nil", "C02.R2.start")
+		"	if persist {\n		return idx.indexPersist.prepare(idx.persistHead)()\n	}",
+		"	if persist {\n		return idx.indexPersist.prepare(updateAt)()\n	}", "C02.R2.start")
 
 	// ---------------- C04
 	mut("C04", "DeleteTimeRange ignores a positive HasDataFor", cdel,
@@ -202,9 +202,9 @@ func init() {
 
 	// ---------------- C02.R6 / R7, C04.R3 loop
 	mut("C02", "Close flushes only when the last commit did not", "cesium/internal/domain/writer.go",
-		"	if *w.EnableAutoCommit && w.AutoIndexPersistInterval > 0 {\n		w.idx.mu.RLock()", "	if *w.EnableAutoCommit && w.AutoIndexPersistInterval > 0 && w.lastIndexPersist.IsZero() {\n		w.idx.mu.RLock()", "C02.R6.close")
+		"	if *w.EnableAutoCommit && w.AutoIndexPersistInterval > 0 {\n		// Hold the lock", "	if *w.EnableAutoCommit && w.AutoIndexPersistInterval > 0 && w.lastIndexPersist.IsZero() {\n		// Hold the lock", "C02.R6.close")
 	mut("C02", "Close never flushes the index", "cesium/internal/domain/writer.go",
-		"	if *w.EnableAutoCommit && w.AutoIndexPersistInterval > 0 {\n		w.idx.mu.RLock()\n		persistPointers := w.idx.indexPersist.prepare(w.idx.persistHead)\n		w.idx.mu.RUnlock()\n		return persistPointers()\n	}\n	return nil", "	return nil", "C02.R6.close")
+		"	if *w.EnableAutoCommit && w.AutoIndexPersistInterval > 0 {\n		// Hold the lock across the persist: a snapshot written after the lock is\n		// released can overwrite the newer one of a commit that ran in between.\n		w.idx.mu.RLock()\n		defer w.idx.mu.RUnlock()\n		return w.idx.indexPersist.prepare(w.idx.persistHead)()\n	}\n	return nil", "	return nil", "C02.R6.close")
 	mut("C02", "the data-file scan fails on a key without a file", "cesium/internal/domain/file_controller.go",
 		"		if !e {\n			continue\n		}\n", "		_ = e\n", "C02.R7.scan")
 	mut("C04", "the offset rewrite stops at the first pointer of another file", "cesium/internal/domain/delete.go",
@@ -217,7 +217,7 @@ func init() {
 		"			startDomain += 1\n		}\n	}\n	if db.idx.mu.pointers[endDomain] != end {\n		endDomain, _ = db.idx.unprotectedSearch(end.TimeRange)\n	}", "			startDomain += 1\n		}\n		if db.idx.mu.pointers[endDomain] != end {\n			endDomain, _ = db.idx.unprotectedSearch(end.TimeRange)\n		}\n	}", "C04.R2.atomic")
 
 	mut("C02", "a writer whose last commit rolled over skips the flush", "cesium/internal/domain/writer.go",
-		"	if *w.EnableAutoCommit && w.AutoIndexPersistInterval > 0 {\n		w.idx.mu.RLock()", "	if w.prevCommit.IsZero() {\n		return nil\n	}\n	if *w.EnableAutoCommit && w.AutoIndexPersistInterval > 0 {\n		w.idx.mu.RLock()", "C02.R6.close")
+		"	if *w.EnableAutoCommit && w.AutoIndexPersistInterval > 0 {\n		// Hold the lock", "	if w.prevCommit.IsZero() {\n		return nil\n	}\n	if *w.EnableAutoCommit && w.AutoIndexPersistInterval > 0 {\n		// Hold the lock", "C02.R6.close")
 
 	// ---------------- C20.R6
 	mut("C20", "re-subscription recycles the configured key slice", "cesium/streamer.go",
@@ -246,4 +246,10 @@ func init() {
 		"	for i.internal.Prev() &&\n		i.accumulate(ctx) &&\n		!i.satisfied() {\n	}", "	for i.internal.Prev() &&\n		i.accumulate(ctx) {\n	}", "C10.R1.mirror")
 	mut("C10", "the Prev command steps forward", "cesium/iterator_stream.go",
 		"func(i *unary.Iterator) bool { return i.Prev(ctx, req.Span) }", "func(i *unary.Iterator) bool { return i.Next(ctx, req.Span) }", "C10.R2.dispatch")
+
+	// ---------------- C02.R2.inorder
+	mut("C02", "insert writes its index snapshot after releasing the index lock", "cesium/internal/domain/index.go",
+		"	defer idx.mu.Unlock()\n	return idx.indexPersist.prepare(idx.persistHead)()\n}\n\nfunc (idx *index) overlap", "	persistPointers := idx.indexPersist.prepare(idx.persistHead)\n	idx.mu.Unlock()\n	return persistPointers()\n}\n\nfunc (idx *index) overlap", "C02.R2.inorder")
+	mut("C02", "Close writes its index snapshot after releasing the index lock", "cesium/internal/domain/writer.go",
+		"		w.idx.mu.RLock()\n		defer w.idx.mu.RUnlock()\n		return w.idx.indexPersist.prepare(w.idx.persistHead)()", "		w.idx.mu.RLock()\n		persistPointers := w.idx.indexPersist.prepare(w.idx.persistHead)\n		w.idx.mu.RUnlock()\n		return persistPointers()", "C02.R2.inorder")
 }
